@@ -3,7 +3,10 @@ package sim
 import (
 	"bytes"
 	"fmt"
+	"math/big"
 	"os"
+
+	"verifsim/refotr"
 )
 
 // C09 – MAC keys are disclosed only once retired, and then they are disclosed.
@@ -24,6 +27,7 @@ func c09Config(rc *RunCtx) {
 	rc.Cfg["pattern"] = r.Intn(5) // 0 mixed 1 ping-pong 2 A-only 3 bursts 4 refresh-heavy
 	rc.Cfg["starter"] = r.Intn(2)
 	rc.Cfg["damage"] = r.Intn(2)
+	rc.Cfg["lying"] = r.Intn(4) / 3 // the peer is the reference implementation and sometimes announces the degenerate next DH key 1
 	pol := polFor(rc.Cfg["version"])
 	rc.Parties = []PartyCfg{{KeyIdx: 0, Pol: pol, Peer: 1}, {KeyIdx: 1, Pol: pol, Peer: 0}}
 }
@@ -62,8 +66,11 @@ func macOwner(s *Shadow, k []byte) (found, live bool, desc string) {
 						which = "sending"
 					}
 					desc = fmt.Sprintf("%s MAC key of pair (our %d, their %d) of session %d; window now our %d..%d, their %d..%d", which, oi, ti, si, sp.OurKeyID-1, sp.OurKeyID, sp.TheirKeyID-1, sp.TheirKeyID)
-					if live {
-						return
+					if !inWin {
+						// a retired pair owns this key: the disclosure is accounted for. (With a peer
+						// that announces the degenerate DH key 1 several of our generations share one
+						// key with it; that is the peer's doing, not a premature disclosure.)
+						return true, false, desc
 					}
 				}
 			}
@@ -73,8 +80,22 @@ func macOwner(s *Shadow, k []byte) (found, live bool, desc string) {
 }
 
 func c09Run(rc *RunCtx) *Violation {
-	w := rc.NewWorld(rc.Parties)
+	cfgs := append([]PartyCfg{}, rc.Parties...)
+	lying := rc.Cfg["lying"] == 1
+	if lying {
+		cfgs[1].Ref = true
+		if cfgs[1].Pol&PolV3 == 0 {
+			cfgs[1].Pol = PolV2
+		} else {
+			cfgs[1].Pol = PolV3
+			cfgs[0].Pol = cfgs[0].Pol&^PolV2 | PolV3
+		}
+	}
+	w := rc.NewWorld(cfgs)
 	o := NewOmni(w)
+	if lying {
+		o.Off[1] = true
+	}
 	var viol *Violation
 	disclosed := 0
 	o.OnData = func(s *Shadow, mi *MsgInfo, r *CallResult) {
@@ -127,6 +148,9 @@ func c09Run(rc *RunCtx) *Violation {
 		if fly[0]+fly[1] == 0 || rc.Cfg["damage"] == 0 {
 			wt[7] = 0
 		}
+		if lying && r.Chance(1, 8) {
+			return Step{K: "lie"}, true
+		}
 		if fly[0] == 0 {
 			wt[2] = 0
 		}
@@ -173,6 +197,13 @@ func c09Run(rc *RunCtx) *Violation {
 		case "deliver":
 			s.C = 0
 			w.Exec(s)
+		case "lie":
+			// the (authenticated) peer replaces its newest DH key by the degenerate pair (0, g^0 = 1);
+			// it stays consistent with itself, so traffic goes on
+			if lying && w.P[1].Ref.Encrypted {
+				w.P[1].Ref.OurCur = refotr.DHPair{Priv: big.NewInt(0), Pub: big.NewInt(1)}
+				w.Fault("peer-announces-dh-key-1")
+			}
 		case "damage":
 			// line noise: a copy of the message at the head of a queue with one MAC bit flipped arrives first
 			l := w.Links[s.A%2][1-s.A%2]
@@ -209,7 +240,7 @@ func c09Run(rc *RunCtx) *Violation {
 	w.Drain(5000)
 	for i := 0; i < 3; i++ {
 		for _, p := range w.P {
-			if p.Conv.IsEncrypted() {
+			if p.post().Enc {
 				r := p.Send(w.GenText(p, 1, 0))
 				w.Enqueue(p, r)
 				w.Drain(2000)
@@ -217,7 +248,7 @@ func c09Run(rc *RunCtx) *Violation {
 		}
 	}
 	for _, p := range w.P {
-		if p.Conv.IsEncrypted() {
+		if p.post().Enc {
 			p.Send(w.GenText(p, 1, 0))
 		}
 	}
@@ -228,7 +259,10 @@ func c09Run(rc *RunCtx) *Violation {
 		return v
 	}
 	retiredBoth := true
-	for _, s := range o.Sh {
+	for si, s := range o.Sh {
+		if o.Off[si] || s.Peer == nil {
+			continue
+		}
 		s.snapshotKeys()
 		var shown [][]byte
 		must := 0
